@@ -552,13 +552,15 @@ func (s *State) writeHistory(blockNum uint64, diff *core.StateDiff) error {
 		}
 	}
 
-	for addr, classHash := range diff.ReplacedClasses {
+	// Same order as Update applies them (deploy, then replace): for an address that a diff lists
+	// in both sections the history must hold the class the contract has after the block.
+	for addr, classHash := range diff.DeployedContracts {
 		if err := WriteClassHashHistory(s.batch, &addr, blockNum, classHash); err != nil {
 			return err
 		}
 	}
 
-	for addr, classHash := range diff.DeployedContracts {
+	for addr, classHash := range diff.ReplacedClasses {
 		if err := WriteClassHashHistory(s.batch, &addr, blockNum, classHash); err != nil {
 			return err
 		}
